@@ -135,11 +135,11 @@ def add_axis_attrs(rng, arr, p=0.5):
 # TODO(defect): percentile(a, q, axis) returns an array without a.attrs (lib/stats.py builds DimArray(results, axes=subaxes)
 # and stacks); the property lists percentile among the reductions that carry the array's metadata.  While this is open
 # the metadata of a percentile result is not demanded when the input has metadata.
-TODO_DEFECT_PCT_ATTRS = True
+TODO_DEFECT_PCT_ATTRS = False
 # TODO(defect): percentile(a, q, axis=(d1, d2)) raises TypeError ("axis must be int or str"): the tuple form of the
 # property ("a tuple of dimensions reduces over all of them at once") does not exist for percentile.  While this is open
 # the tuple stratum of percentile is not generated.
-TODO_DEFECT_PCT_TUPLE = True
+TODO_DEFECT_PCT_TUPLE = False
 
 
 class C08(Prop):
